@@ -72,7 +72,7 @@ void sc_vol(Tape& t, int variant, Emit& e) {
 	}
 	volgen::mkdirs("%in/"); volgen::mkdirs("%o/");
 	std::vector<std::string> paths;
-	for (auto& f : fs) { write_file("%in/" + f.first, f.second); paths.push_back(variant ? "./%in/" + f.first : "%in/" + f.first); }
+	for (auto& f : fs) { write_file("%in/" + f.first, f.second); paths.push_back(variant ? (paths.size() % 3 == 0 ? "./%in/" : paths.size() % 3 == 1 ? "%in//" : "./%in/./") + f.first : "%in/" + f.first); }   // other spellings of the same files
 	if (variant) std::reverse(paths.begin(), paths.end());
 	std::string out = variant ? "./%o/v.vol" : "%o/v.vol"; remove(out.c_str());
 	Archive::VolFile::CreateArchive(out, paths);
@@ -104,7 +104,7 @@ void sc_clm(Tape& t, int variant, Emit& e) {
 		refclm::WavSpec w; w.fmt = f; w.fmt18 = t.flag(); w.data = t.expand(t.below(120));
 		if (t.flag()) { refclm::Chunk c; memcpy(c.tag, "LIST", 5); c.body = t.bytes(2 * t.below(5)); w.afterData.push_back(c); }
 		if (t.flag()) { refclm::Chunk c; memcpy(c.tag, "fact", 5); c.body = {1, 2, 3, 4}; w.beforeFmt.push_back(c); }
-		write_file("%in/" + nm + ".wav", refclm::build_wav(w)); names.push_back(nm); paths.push_back(variant ? "./%in/" + nm + ".wav" : "%in/" + nm + ".wav");
+		write_file("%in/" + nm + ".wav", refclm::build_wav(w)); names.push_back(nm); paths.push_back(variant ? (i % 2 ? "%in//" : "./%in/") + nm + ".wav" : "%in/" + nm + ".wav");
 	}
 	if (variant) std::reverse(paths.begin(), paths.end());
 	std::string out = "%o/c.clm"; remove(out.c_str());
